@@ -123,10 +123,13 @@ def problem_text(dom_name: str, objects: Dict[str, str], st: RefState, goal="(an
 
 
 def make_state(domain: Domain, dom_name: str, objects: Dict[str, str], st: RefState, typed=True,
-               constants=()) -> Tuple[State, Problem]:
+               constants=(), order=None) -> Tuple[State, Problem]:
     """Build a library State holding exactly st, through the problem parser (the public route a
-    user takes).  `objects` must not contain domain constants."""
+    user takes).  `objects` must not contain domain constants.  `order` = a permutation of the object
+    names (the declaration order of :objects is the iteration order of Problem.objects)."""
     objs = {o: t for o, t in objects.items() if o not in constants}
+    if order is not None:
+        objs = {o: objs[o] for o in order if o in objs}
     prob = parse_problem(problem_text(dom_name, objs, st, typed=typed), domain)
     return create_initial_state(prob), prob
 
